@@ -81,6 +81,13 @@ func (dec *Decoder) Decode(v any) error {
 	}
 	b, err := dec.dec.ReadValue()
 	if err != nil {
+		if errors.Is(err, io.ErrUnexpectedEOF) && dec.dec.StackDepth() > 0 &&
+			len(bytes.Trim(dec.dec.UnreadBuffer(), " \r\n\t,:")) == 0 {
+			// Historically, v1 would report just [io.EOF] if there is no more
+			// input after the tokens read so far (see also Token).
+			dec.err = io.EOF
+			return dec.err
+		}
 		dec.err = transformSyntacticError(err)
 		if dec.err.Error() == errUnexpectedEnd.Error() {
 			// NOTE: Decode has always been inconsistent with Unmarshal
